@@ -70,4 +70,30 @@ theorem C17_len_error (T : Ty) (hT : T = .dyn ∨ T = .big) (l : List Nat) (e : 
 example : tryFromLeBytes .dyn [1, 2, 3, 4, 5] = .error (.sizeMismatch 5 8) := by rfl
 example : tryFromLeBytes .dyn (List.replicate 24 7) = .error (.wouldOverflow 20 24) := by rfl
 
+/-- reading a list through a literal index list, as the `[b[15], b[14], …]` array expressions of `to_be_bytes` /
+    `from_be_bytes` do -/
+def gather (idx l : List Nat) : List Nat := idx.map (fun i => l.getD i 0)
+
+/-- **C16 (index lists).** Reading through the descending index list is the byte reversal. The literal index lists of
+    the source are translated on every run (`tools/gen_be.py`) and proved equal to `(List.range N).reverse`. -/
+theorem C16_be_gather (l : List Nat) : gather (List.range l.length).reverse l = l.reverse := by
+  unfold gather
+  apply List.ext_getElem
+  · simp
+  · intro i h1 h2
+    simp only [List.length_map, List.length_reverse, List.length_range] at h1
+    simp only [List.getElem_map, List.getElem_reverse, List.getElem_range, List.length_range]
+    have : l.length - 1 - i < l.length := by omega
+    simp [List.getD_eq_getElem?_getD, List.getElem?_eq_getElem this]
+
+/-- `from_be_bytes ∘ to_be_bytes` and `to_be_bytes ∘ from_be_bytes` are the identity on arrays of the type's length. -/
+theorem C16_be_gather_inverse (l : List Nat) :
+    gather (List.range l.length).reverse (gather (List.range l.length).reverse l) = l := by
+  have h := C16_be_gather l
+  have hl : (gather (List.range l.length).reverse l).length = l.length := by simp [gather]
+  have h2 := C16_be_gather (gather (List.range l.length).reverse l)
+  rw [hl] at h2
+  rw [h2, h, List.reverse_reverse]
+
+
 end Decstr.Props.C16
